@@ -184,6 +184,20 @@ func execHist(raw json.RawMessage) any {
 					m[st.Path] = &fstest.MapFile{Data: data, Mode: 0644, ModTime: time.Now()}
 				}
 			}
+		case "shortKey":
+			// the artifact becomes a user-supplied key-only file: a valid PKCS#8 P-256 key whose scalar has a leading zero
+			// octet, written without it (31 octets), as older encoders do; the key must be used as it is
+			if _, ok := m[st.Path]; ok {
+				var k *ecdsa.PrivateKey
+				for {
+					k = must(ecdsa.GenerateKey(elliptic.P256(), rand.Reader))
+					if len(k.D.Bytes()) < 32 {
+						break
+					}
+				}
+				der := foreignEc(elliptic.P256(), mustOid("1.2.840.10045.3.1.7"), k.D, "stripped")
+				m[st.Path] = &fstest.MapFile{Data: pem.EncodeToMemory(&pem.Block{Type: "PRIVATE KEY", Bytes: der}), Mode: 0644, ModTime: time.Now()}
+			}
 		case "damageKey":
 			// the PRIVATE KEY block stays valid PEM and valid outer PKCS#8, but its inner ECPrivateKey gets version 2
 			// (RSA: the inner version becomes 7): an unusable key, which a default run has to replace
@@ -310,7 +324,7 @@ func chainScenarios(yield func(any)) {
 		}
 		return ents
 	}
-	triggers := []string{"edit-subject", "delete-pem", "strip-key", "truncate", "strip-cert", "touch", "copy-pem", "note+edit", "edit+delete-child", "swap-key+edit", "csr+edit", "csr-nokey+edit", "damage-key"}
+	triggers := []string{"edit-subject", "delete-pem", "strip-key", "truncate", "strip-cert", "touch", "copy-pem", "note+edit", "edit+delete-child", "swap-key+edit", "csr+edit", "csr-nokey+edit", "damage-key", "short-key"}
 	for tier := 0; tier < 3; tier++ {
 		for _, trig := range triggers {
 			for w := -1; w < 4; w++ {
@@ -370,6 +384,8 @@ func chainScenarios(yield func(any)) {
 							steps = append(steps, Step{Op: "addCsr", Path: pemPath(e.path), Block: "nokey"})
 						}
 						steps = append(steps, Step{Op: "write", File: &f})
+					case "short-key":
+						steps = append(steps, Step{Op: "shortKey", Path: pemPath(e.path)})
 					case "damage-key":
 						steps = append(steps, Step{Op: "damageKey", Path: pemPath(e.path)})
 					case "edit+delete-child":
@@ -810,6 +826,27 @@ func genHash(yield func(any)) {
 			nm[".signatureValue"] = "!binary:q6ur"
 			c["manipulations"] = nm
 		})
+		// every manipulation key, set (or changed) on its own
+		for _, kv := range []struct {
+			k string
+			v any
+		}{{".signatureAlgorithm", "1.2.840.113549.1.1.5"}, {".tbs.signature", "1.2.840.10045.4.3.3"}, {".tbs.subjectPublicKey.algorithm", "1.3.101.112"},
+			{".tbs.subjectPublicKey.subjectPublicKey", "!binary:BAECAwQ="}, {".version", 0}, {".signatureValue", "!empty"}} {
+			kv := kv
+			add("manip"+kv.k, func(c, p J) {
+				mm, _ := c["manipulations"].(map[string]any)
+				nm := J{}
+				for k, x := range mm {
+					nm[k] = x
+				}
+				if fmt.Sprint(nm[kv.k]) == fmt.Sprint(kv.v) {
+					delete(nm, kv.k)
+				} else {
+					nm[kv.k] = kv.v
+				}
+				c["manipulations"] = nm
+			})
+		}
 		add("issuer", func(c, p J) {}) // identical re-read as an "edit": must NOT change the hash
 		if prof != nil {
 			add("profile.ext", func(c, p J) {
